@@ -66,7 +66,7 @@ DataBytes(frm) == Flatten([i \in 1..Len(frm) |-> FrameBytes(frm[i])])
 \* Capacity of the format (checked by write() before anything is written): one byte for lengths, dimensions, counts of
 \* dimensions and group ids; two bytes for integers, next-offsets and header words; 255 parameter blocks
 ElemSize(t) == IF t = TCHAR THEN 1 ELSE IF t = TNONE THEN 10000 ELSE t
-ParamRecSize(p) == 7 + Len(p.n) + Len(p.dim) + Len(p.d) + (IF p.dim = <<>> THEN 0 ELSE Product(p.dim)) * ElemSize(p.t)
+ParamRecSize(p) == 7 + Len(p.n) + (IF p.dim = <<1>> THEN 0 ELSE Len(p.dim)) + Len(p.d) + (IF p.dim = <<>> THEN 0 ELSE Product(p.dim)) * ElemSize(p.t)
 ParamFits(p) ==
   /\ Len(p.n) <= 127 /\ Len(p.d) <= 255 /\ Len(p.dim) <= 7 /\ \A i \in 1..Len(p.dim) : p.dim[i] <= 255
   /\ (p.t = TINT => \A i \in 1..Len(p.v) : p.v[i] >= -32768 /\ p.v[i] <= 32767)
